@@ -3778,7 +3778,7 @@ type EndOfStreamTrigger struct {
 }
 
 func (w *EndOfStreamTrigger) Format(buf *TrackedBuffer) {
-	buf.Myprintf("ON WATERMARK")
+	buf.Myprintf("ON END OF STREAM")
 }
 
 func (w *EndOfStreamTrigger) walkSubtree(visit Visit) error {
